@@ -427,7 +427,7 @@ class FunctionExtractor:
             se = _end(size['range']['end'])
             if self.src[se:e].strip() != ']':
                 raise ExtractionError('unexpected array-new shape: %r' % self.src[b:e])
-            self.ed.replace(b, sb, '((%s*)malloc(((size_t)(' % elem)
+            self.ed.replace(b, sb, '((%s*)verif_alloc(((size_t)(' % elem)
             self.ed.replace(se, e, '))*sizeof(%s)))' % elem)
             self.rules.append('R4')
             self.walk(size)
@@ -453,7 +453,7 @@ class FunctionExtractor:
             ptxt = self.src[_off(pl['range']['begin']):_end(pl['range']['end'])]
             target = '(%s)' % ptxt
         else:
-            target = '(%s*)malloc(sizeof(%s))' % (elem, elem)
+            target = '(%s*)verif_alloc(sizeof(%s))' % (elem, elem)
         sep = ', ' if args else ''
         self.ed.replace(b, p + 1, '%s__ctor(%s%s' % (elem, target, sep))
         self.rules.append('R5')
